@@ -41,6 +41,9 @@ def uop_instances(maxn=5):
     for n in range(maxn + 1):
         ops += ["(take %d)" % n, "(skip %d)" % n, "(take_last %d)" % n, "(skip_last %d)" % n,
                 "(buffer_with_count %d)" % n, "(element_at %d)" % n]
+    for n in ("big", "big1", "mid"):     # usize::MAX, usize::MAX - 1, 2^33
+        ops += ["(take %s)" % n, "(skip %s)" % n, "(take_last %s)" % n, "(skip_last %s)" % n,
+                "(buffer_with_count %s)" % n, "(element_at %s)" % n]
     for p in PREDS:
         ops += ["(take_while %s)" % p, "(take_while_inclusive %s)" % p, "(skip_while %s)" % p, "(all %s)" % p]
     ops += ["(last)", "(first)", "(first_or 9)", "(last_or 9)", "(ignore_elements)"]
